@@ -38,7 +38,7 @@ class C08(Engine):
     prop = "C08"
     name = "cli-sim+wellformedness-monitor"
     level = "exploration"
-    expected_kinds = {"emit_perm", "format_json", "prefix_chr", "prefix_line", "line_tail_lost", "tok_edit", "non_ascii", "multi_file", "synthetic_lists", "hashseed", "none", "empty_selection"}
+    expected_kinds = {"emit_perm", "format_json", "prefix_chr", "prefix_line", "line_tail_lost", "tok_edit", "non_ascii", "multi_file", "synthetic_lists", "hashseed", "none", "empty_selection", "ambient_env"}
     rule_text = ("Single- and multi-file runs of the real main() over damaged and undamaged workload files in both formats; each human "
                  "run is paired with its `-f json` twin (W3) and re-run with K explicit permutations of Errors._inner (W4); W1/W2 are "
                  "evaluated on every printed report. Synthetic diagnostic lists (positions from a 4x4 grid, 1-3 highlights, catalogue "
@@ -114,6 +114,12 @@ class C08(Engine):
             base_sc = {"kind": "single", "fault": kind, "files": {"x": fd}, "tree": {nm: "@x"}}
             sc = dict(base_sc)
             sc["ops"] = [{"op": "cli", "argv": ["-f", "json", nm]}]
+            if i % 5 == 1:
+                # S10: ambient environment (terminal geometry, colour conventions): both runs of the pair get it
+                e = core.derive_rng("c08.env", self.seed, i)
+                sc["ops"][0]["env"] = dict(e.sample([("COLUMNS", e.choice(["20", "40", "80"])), ("LINES", "24"), ("NO_COLOR", "1"), ("TERM", "dumb"),
+                                                     ("FORCE_COLOR", "1"), ("LANG", "C")], e.randrange(1, 4)))
+                sc["ambient"] = True
             yield idx, sc
             idx += 1
             if i % 3 == 0:
@@ -243,7 +249,9 @@ class C08(Engine):
         t["ops"] = [{"op": "cli", "argv": argv}]
         if op.get("cwd"):
             t["ops"][0]["cwd"] = op["cwd"]
-        key = ("c08twin", core.sha(json.dumps([self.tree_sig(sc), argv, op.get("cwd")], sort_keys=True, default=str)), sc.get("twin_hashseed"))
+        if op.get("env"):
+            t["ops"][0]["env"] = op["env"]
+        key = ("c08twin", core.sha(json.dumps([self.tree_sig(sc), argv, op.get("cwd"), op.get("env")], sort_keys=True, default=str)), sc.get("twin_hashseed"))
         return key, t
 
     def ensure_refs(self, scs):
@@ -465,6 +473,8 @@ class C08(Engine):
         fk = sc.get("fault")
         if fk in ("prefix_chr", "non_ascii", "multi_file", "prefix_line", "none", "empty_selection"):
             self.fire(fk)
+        if sc.get("ambient"):
+            self.fire("ambient_env")
         if any(len(f["diags"] or []) > 1000 for rep in o.get("reports") or [] for f in rep["files"]):
             self.count("lists", "with_more_than_1000_diagnostics")
         if fk in ("tok_edit", "lexical"):
